@@ -45,10 +45,18 @@ def build(o):
     k = o[0]
     rep = o[3] if len(o) > 3 else None
     if k == "N":
+        if rep == "fraction":
+            return F(float(o[1])).limit_denominator(10 ** 6)
+        if rep in ("float32", "float16", "longdouble"):
+            return getattr(np, rep)(o[1])
+        if rep == "bigint":
+            return int(o[1])
         return int(o[1]) if o[2] == "int" else float(o[1])
     if k == "I":
         return P.I(o[1], o[2])
     if k == "P":
+        if rep == "f32":
+            return pbx.Staircase()(left=np.array(o[1], dtype=np.float32), right=np.array(o[2], dtype=np.float32))
         if rep == "int":
             return pbx.Staircase()(left=np.array(o[1], dtype=np.int64), right=np.array(o[2], dtype=np.int64))
         if rep == "list":
@@ -524,7 +532,7 @@ def gen_cases(ctx):
             cases.append(("expr", dep, "mul", ("N", -2, "int"), H))
             cases.append(("expr", dep, "sub", ("I", -1, 2), H))
     # explicit-dependency methods on a p-box / DS structure with an operand of any kind
-    for _ in range(ctx.scale(100, 2500)):
+    for _ in range(ctx.scale(80, 2500)):
         lk = rng.choice(["pbox", "pbox", "dss"])
         rk = rng.choice(KINDS)
         op, dep = rng.choice(OPS), rng.choice(DEPS)
@@ -578,9 +586,11 @@ def gen_cases(ctx):
             base.append((T, H))
     scales = (-580, -70, 36) if ctx.tier != "thorough" else (-580, -560, -70, -30, 36, 500)
     j = 0
-    for T, H in base:
-        for op in OPS:
+    for bi, (T, H) in enumerate(base):
+        for oi, op in enumerate(OPS):
             j += 1
+            if ctx.tier != "thorough" and (bi + oi) % 2:
+                continue
             ks = scales if ctx.tier == "thorough" else (scales[j % len(scales)],)
             for k2 in ks:
                 for order in ((0, 1) if ctx.tier == "thorough" else (j % 2,)):
@@ -592,9 +602,12 @@ def gen_cases(ctx):
                     else:
                         b = scale_opd(b, k2)
                     dep = DEPS[j % 4] if (ctx.tier == "thorough" or j % 3) else "f"
-                    if dep == "i" and ctx.tier != "thorough" and (a[0] == "D" or b[0] == "D"):
-                        dep = "f"
+                    if dep == "i" and ctx.tier != "thorough" and ((a[0] == "D" or b[0] == "D") or j % 16):
+                        dep = "f" if j % 2 else "o"      # n*n sorts of 600-bit rationals are slow in the model: few in the quick tier
                     form = "spec" if (is_low(a) and is_low(b)) else "expr"
+                    if ctx.tier != "thorough" and form == "expr" and dep == "f" and op in ("mul", "div") and (j // 4) % 4 \
+                            and (straddles(bounds(a)) or straddles(bounds(b))):
+                        continue      # naive x Balch on 600-bit rationals: a quarter of them in the quick tier
                     cases.append((form, dep, op, a, b))
     # ---- thin but not degenerate intervals (relative width 1e-9 .. 1e-5, tiny absolute magnitudes): nothing may treat them as points
     thin = [("I", 2000.0, 2000.01), ("I", 1e5, 1e5 + 0.5), ("I", 1e6, 1e6 + 5.0), ("I", -3000.001, -3000.0),
@@ -635,6 +648,25 @@ def gen_cases(ctx):
                 cases.append(("expr", dep, op, H, ("N", cst, "float")))
                 if rng.random() < 0.6:
                     cases.append(("expr", dep, op, ("N", cst, "float"), H))
+    # ---- numeric types of a number operand (Fraction, Python int beyond 2**53, float32 / float16 / longdouble scalars) and float32
+    # p-box bounds: the result is the binary64 computation on the same values
+    nums = [("N", 1 / 3, "float", "fraction"), ("N", -2.75, "float", "fraction"), ("N", float(2 ** 60 + 1), "float", "bigint"),
+            ("N", float(np.float32(0.1)), "float", "float32"), ("N", float(np.float16(-2.5)), "float", "float16"),
+            ("N", 0.1, "float", "longdouble")]
+    P32 = ("P", [4] * 100 + [6] * 100, [5] * 100 + [9] * 100, "f32")
+    for ci, cn in enumerate(nums):
+        for hi_, H in enumerate((Pw, Dw, Sw, P32)):
+            for oi, op in enumerate(OPS):
+                if ctx.tier != "thorough" and (ci + hi_ + oi) % 2:
+                    continue
+                dep = rng.choice(["f", "p", "o"])
+                cases.append(("expr", dep, op, H, cn))
+                if rng.random() < 0.5:
+                    cases.append(("expr", dep, op, cn, H))
+    for H in (I12, Dw, Sw, ("N", 3, "int")):
+        for op in OPS:
+            cases.append(("expr", rng.choice(DEPS), op, P32, H))
+            cases.append(("expr", rng.choice(DEPS), op, H, P32))
     # conversions
     for _ in range(ctx.scale(40, 400)):
         k = rng.choice(KINDS)
@@ -818,7 +850,7 @@ def gen_chains(ctx):
         out.append((dep, "S", "sub", "sub", Dpos, Pw, None))            # (D - P) - D : the operand is used twice
         out.append((dep, "L", "mul", "sub", Dstr, I12, Sw))             # (D * I) - S
         out.append((dep, "R", "div", "add", Pw, ("I", -9, -7), Sw))     # P / (I + S) : the divisor is a computed p-box without zero
-    for _ in range(ctx.scale(70, 2000)):
+    for _ in range(ctx.scale(50, 2000)):
         sh = rng.choice(SHAPES)
         dep = rng.choice(DEPS)
         o1, o2 = rng.choice(OPS), rng.choice(OPS)
@@ -914,7 +946,7 @@ def run_entry_points(ctx):
              ("uniform", (1.0, 3.0), lambda: P.uniform(1.0, 3.0)), ("gamma", (2.0, 1.0), lambda: P.gamma(2.0, 1.0)),
              ("beta", (2.0, 5.0), lambda: P.beta(2.0, 5.0))]
     dsss = [([[1, 5], [3, 6]], [0.25, 0.75]), ([[-3, 1], [-1, 2], [0, 4]], [0.5, 0.25, 0.25]), ([[1, 5], [3, 6]], [0.5, 0.5])]
-    for _ in range(ctx.scale(24, 400)):
+    for _ in range(ctx.scale(18, 400)):
         op, dep = rng.choice(OPS), rng.choice(DEPS)
         x = rng.choice(X)
         if op == "div":
@@ -926,6 +958,13 @@ def run_entry_points(ctx):
                 fam, prm, alt = dists[0]
             objs = [("Distribution(tuple)", lambda: P.Distribution(fam, tuple(prm))), ("Distribution(list)", lambda: P.Distribution(fam, list(prm))),
                     ("pba." + fam, alt), ("Distribution.to_pbox()", lambda: P.Distribution(fam, tuple(prm)).to_pbox())]
+            if fam == "gaussian":
+                import scipy.stats as sps
+                # a frozen scipy object handed over: positional, keywords in either order, mixed (keyword order is the caller's)
+                objs += [("dist_from_sps(norm(loc=, scale=))", lambda: P.Distribution.dist_from_sps(sps.norm(loc=prm[0], scale=prm[1]), shape="gaussian")),
+                         ("dist_from_sps(norm(scale=, loc=))", lambda: P.Distribution.dist_from_sps(sps.norm(scale=prm[1], loc=prm[0]), shape="gaussian")),
+                         ("dist_from_sps(norm(m, s))", lambda: P.Distribution.dist_from_sps(sps.norm(prm[0], prm[1]), shape="gaussian")),
+                         ("dist_from_sps(norm(m, scale=))", lambda: P.Distribution.dist_from_sps(sps.norm(prm[0], scale=prm[1]), shape="gaussian"))]
             what = ["D", fam, list(prm)]
         else:
             ivs, m = rng.choice(dsss[:1] + dsss[2:] if op == "div" else dsss)
@@ -953,6 +992,115 @@ def run_entry_points(ctx):
                 break
         if ref[0] == "err" and not (op == "div" and divisor_has_zero(op, tuple(what)) and order is False):
             ctx.fail({"form": "entry", "op": op, "dep": dep, "check": "raises", "symptom": "raises:" + ref[1]}, case, f"entry-point expression raised {ref[1]}")
+
+
+def run_aliasing(ctx):
+    """caller-visible aliasing: a p-box built from the caller's own float64 arrays of exactly Params.steps entries must not keep
+    them; a result must not share memory with an operand; changing the buffers / a result in place afterwards changes nothing"""
+    P = pba()
+    S = pbx.Staircase()
+    rng = ctx.rng
+    for it in range(ctx.scale(10, 120)):
+        l0, r0 = pbx.int_box200(rng, rng.choice(["pos", "neg", "str"]))
+        bufL, bufR = np.array(l0, dtype=np.float64), np.array(r0, dtype=np.float64)
+        keepL, keepR = bufL.copy(), bufR.copy()
+        op, dep = rng.choice(["add", "sub", "mul"]), rng.choice(DEPS)
+        yk = rng.choice(["ivl", "num", "dist", "dss", "pbox"])
+        yo = {"ivl": ("I", 1, 2), "num": ("N", 3, "int"), "dist": ("D", "gaussian", [8.0, 1.0]), "dss": ("S", [[1, 5], [3, 6]], [0.25, 0.75]),
+              "pbox": ("P", [4] * 100 + [6] * 100, [5] * 100 + [9] * 100)}[yk]
+        left_side = rng.random() < 0.5
+        case = {"form": "alias", "op": op, "dep": dep, "other": short(yo), "pbox_on_the_left": left_side,
+                "pbox": {"left": [l0[0], l0[-1]], "right": [r0[0], r0[-1]]}}
+        ctx.count(("alias", it, op, dep, yk, left_side), True, "aliasing")
+        feat = {"form": "alias", "op": op, "dep": dep, "rkind": yk}
+        try:
+            with warnings.catch_warnings():
+                warnings.simplefilter("ignore")
+                X = S(left=bufL, right=bufR)
+                Y = build(yo)
+                was = canon(X)
+                first_obj = None
+                first = run_expr(dep, op, X, Y) if left_side else run_expr(dep, op, Y, X)
+                first_obj, _LAST[0] = _LAST[0], None
+        except BaseException as e:  # noqa
+            ctx.fail({**feat, "check": "raises", "symptom": "raises:" + err_kind(e)}, case, f"aliasing stream: construction raised {err_kind(e)}")
+            continue
+        if first[0] != "ok":
+            ctx.fail({**feat, "check": "raises", "symptom": "raises:" + str(first[1])}, case, f"aliasing stream: expression raised {first[1]}")
+            continue
+        bad = None
+        if first_obj is X or first_obj is Y:
+            bad = "the result IS one of the operand objects"
+        elif hasattr(first_obj, "left") and any(np.shares_memory(np.asarray(a), np.asarray(b)) for a in (first_obj.left, first_obj.right)
+                                                for b in (X.left, X.right, bufL, bufR) + ((Y.left, Y.right) if yk == "pbox" else ())):
+            bad = "the result shares memory with an operand"
+        if bad is None:
+            # the caller goes on using its arrays as work buffers
+            bufL *= 3.0; bufL -= 7.0; bufR[:] = bufR[::-1].copy() + 11.0
+            if canon(X) != was:
+                bad = "the p-box changed when the arrays it was built from were modified in place afterwards"
+            else:
+                second = run_expr(dep, op, X, Y) if left_side else run_expr(dep, op, Y, X)
+                if second != first:
+                    bad = "the same expression gives another answer after the caller modified its own arrays"
+        if bad is None and hasattr(first_obj, "left"):
+            first_obj.left[...] = -1e9                       # the caller scribbles over a result it owns
+            if canon(X) != was or (yk == "pbox" and canon(Y) != canon(build(yo))):
+                bad = "writing into a result changed an operand"
+        if bad is None and not (np.array_equal(keepL * 3.0 - 7.0, bufL)):
+            bad = "the caller's array was modified by the library"
+        ctx.bump("oracle:aliasing")
+        if bad:
+            ctx.fail({**feat, "check": "aliasing", "symptom": "aliasing"}, case, f"p-box from caller-owned float64 arrays of {N} entries, {op} with {yk} under {dep}: {bad}")
+
+
+def run_fp_state(ctx):
+    """process-wide floating-point / warning settings: under np.errstate(all='raise') and under warnings-as-errors an expression gives
+    the SAME value as under the default settings or raises - never another value; the ambient dependency and the operands stay as they were"""
+    from pyuncertainnumber.pba.context import get_current_dependency
+    rng = ctx.rng
+    Pw, Ps = ("P", [4] * 100 + [6] * 100, [5] * 100 + [9] * 100), ("P", [-3] * 50 + [-1] * 50 + [1] * 100, [-2] * 50 + [0] * 50 + [4] * 100)
+    pool = [("I", 1, 2), ("I", -1, 2), ("N", 3, "int"), ("N", -2.5, "float"), Pw, Ps, ("D", "gaussian", [8.0, 1.0]), ("D", "gaussian", [0.5, 1.0]),
+            ("S", [[1, 5], [3, 6]], [0.25, 0.75]), ("S", [[-3, 1], [-1, 2], [0, 4]], [0.5, 0.25, 0.25]), ("I", 2e-9, 8e-9), ("N", 1e-20, "float")]
+    for it in range(ctx.scale(16, 400)):
+        l, r = rng.choice(pool), rng.choice(pool)
+        if is_low(l) and is_low(r):
+            r = rng.choice(pool[4:10])
+        op, dep = rng.choice(OPS), rng.choice(DEPS)
+        if op == "div" and divisor_has_zero(op, r):
+            op = "mul"
+        base = run_expr(dep, op, build(l), build(r))
+        ctx.count(("fpstate", it, op, dep, str(l)[:40], str(r)[:40]), True, "fp-state")
+        case = {"form": "fpstate", "op": op, "dep": dep, "l": short(l), "r": short(r), "default": js(base)}
+        feat = {"form": "fpstate", "op": op, "dep": dep, "lkind": kind_of(l), "rkind": kind_of(r)}
+        P = pba()
+        for mode in ("errstate-raise", "warnings-error"):
+            L, R = build(l), build(r)
+            before = (snap(L), snap(R))
+            try:
+                if mode == "errstate-raise":
+                    with np.errstate(all="raise"), warnings.catch_warnings():
+                        warnings.simplefilter("ignore")
+                        with P.dependency(dep):
+                            got = canon(pbx.PYOPS[op](L, R))
+                else:
+                    with warnings.catch_warnings():
+                        warnings.simplefilter("error")
+                        with P.dependency(dep):
+                            got = canon(pbx.PYOPS[op](L, R))
+            except BaseException as e:  # noqa  (an escalated warning / FloatingPointError propagating is acceptable)
+                got = ("err", err_kind(e))
+            ctx.bump("oracle:fp-state-" + mode)
+            if got[0] != "err" and got != base:
+                ctx.fail({**feat, "check": "value-depends-on-" + mode, "symptom": "value-depends-on-global-state"}, {**case, mode: js(got)},
+                         f"{kind_of(l)} {op} {kind_of(r)} under {dep}: a different value under {mode} than under the default settings")
+            if get_current_dependency() != "f" or before != (snap(L), snap(R)):
+                ctx.fail({**feat, "check": "state-not-restored-" + mode, "symptom": "state-not-restored"}, case,
+                         f"after {mode}: ambient dependency {get_current_dependency()!r} / operands changed")
+        again = run_expr(dep, op, build(l), build(r))
+        if again != base:
+            ctx.fail({**feat, "check": "not-repeatable", "symptom": "second-evaluation-differs"}, {**case, "again": js(again)},
+                     "the default-settings value changed after the runs under altered floating-point / warning settings")
 
 
 def run_chains(ctx, chains, chain_replies):
@@ -1091,7 +1239,7 @@ def run(ctx: core.Check):
             _LAST[0] = None
             if len(alive) > 64:
                 alive.pop(0)
-            if form == "expr" and len(again) < ctx.scale(40, 400) and ctx.evaluations % 17 == 0:
+            if form == "expr" and len(again) < ctx.scale(24, 400) and ctx.evaluations % 17 == 0:
                 again.append((c, impl, locals().get("bare", False)))
         if ctx.evaluations % 150 == 0:
             recheck_alive(ctx, alive, "after %d evaluations" % ctx.evaluations)
@@ -1172,6 +1320,8 @@ def run(ctx: core.Check):
     recheck_alive(ctx, alive, "at the end of the main stream")
     run_chains(ctx, chains, chain_replies)
     run_entry_points(ctx)
+    run_aliasing(ctx)
+    run_fp_state(ctx)
     # the same expressions once more, after everything else has run: identical answers
     for c, first, bare in again:
         form, dep, op, l, r = c
